@@ -37,6 +37,10 @@ def gen_value(d: Draw, kind, n, mixed=None):
     else:
         v = {'v': d.pick(PAL[kind]), 'arr': bool(n)}
     n = abs(n)
+    if d.chance(1, 6):
+        # a value a hair away from a palette value: successive updates that differ by far less than any "looks unchanged"
+        # tolerance, as a time-stepping caller produces them
+        v['nudge'] = d.pick([1e-9, 3e-7, 2e-6])
     if v['arr'] and kind in ('eccentricity', 'obliquity') and d.chance(1, 10):
         v['zero_at'] = d.below(n) + n   # an array containing an exact zero (yields inf/NaN rates, must not raise)
     return v
@@ -786,9 +790,9 @@ def _abstract(state):
         elif k == 'T':
             out[k] = {str(i): (x['v'], x['arr']) for i, x in v.items()}
         elif isinstance(v, tuple):
-            out[k] = (v[0], repr(v[1].get('raw', v[1].get('v'))), v[1].get('arr'))
+            out[k] = (v[0], repr(v[1].get('raw', v[1].get('v'))), v[1].get('arr'), v[1].get('nudge'))
         else:
-            out[k] = (repr(v.get('raw', v.get('v'))), v.get('arr'))
+            out[k] = (repr(v.get('raw', v.get('v'))), v.get('arr'), v.get('nudge'))
     return out
 
 
@@ -833,7 +837,8 @@ def _op_label1(op):
         if isinstance(v, dict) and 'raw' in v:
             return 'raw'
         if isinstance(v, dict):
-            return ('%g' % v['v']) + ('[]' if v.get('arr') else '') + ('(0@%d)' % v['zero_at'] if v.get('zero_at') else '')
+            return ('%g' % v['v']) + ('[]' if v.get('arr') else '') + ('(0@%d)' % v['zero_at'] if v.get('zero_at') else '') + \
+                ('*(1+%g)' % v['nudge'] if v.get('nudge') else '')
         return repr(v)
     args = ', '.join('%s=%s' % (k, val(v)) for k, v in op.get('args', {}).items())
     name = op.get('name')
